@@ -93,3 +93,79 @@ total = Contract(
     abstract=ABSTRACT_T, asserts="prove", ghost={"reach": "list[bool]"},
     notes="asserts never fire under ghost predicate reach closed under alternating paths and no augmenting path",
 )
+
+
+# ------------------------------------------------------------------------------------------------------------------
+# The Hungarian matching producer: `augment` (recursive) and `max_bipartite_matching2` are under contract themselves,
+# so MATCHING is *proved* for algo="Hungarian" (it stays an assumed contract only for SciPy's Hopcroft-Karp).
+# Recursion is handled by the function's own contract (call by contract at the recursive call site).
+#
+# augment(u, bigraph, visit, match) - entry: `match` is a matching; u is free or matched at a slot that is already visited
+# (the caller's slot, which the caller overwrites after a successful return).  While the recursion unwinds `u` may appear
+# twice: at its old slot and at its new one.  That is the only duplicate (E5).  Positions visited at entry never change
+# (E6); a changed position holds u or a value taken from a position that was unvisited at entry (E7).
+AUG_PARAMS = {"u": "int", "bigraph": "list[list[int]]", "visit": "list[bool]", "match": "list[opt[int]]"}
+AUG_SHAPE = [
+    "0 <= u and u < len(bigraph)",
+    "len(visit) == len(match)",
+    "all(0 <= v and v < len(match) for uu in range(len(bigraph)) for v in bigraph[uu])",
+]
+VALID = "all(implies(match[v] is not None, 0 <= match[v] and match[v] < len(bigraph) and v in bigraph[match[v]]) for v in range(len(match)))"
+INJ = "all(implies(match[v1] is not None and match[v1] == match[v2], v1 == v2) for v1 in range(len(match)) for v2 in range(len(match)))"
+AUG_REQUIRES = AUG_SHAPE + [VALID, INJ,
+                            "all(implies(match[v] == u, visit[v]) for v in range(len(match)))"]
+AUG_ENSURES = [
+    ("E0-lengths", "len(match) == len(old_match) and len(visit) == len(old_visit)"),
+    ("E1-matched-pairs-are-edges", VALID),
+    ("E2-visit-monotone", "all(implies(old_visit[v], visit[v]) for v in range(len(match)))"),
+    ("E3-failure-leaves-match-unchanged", "implies(not result, all(match[v] == old_match[v] for v in range(len(match))))"),
+    ("E5-only-duplicate-is-u-at-its-old-slot",
+     "all(implies(match[v1] is not None and match[v1] == match[v2] and v1 != v2, "
+     "match[v1] == u and (old_match[v1] == u or old_match[v2] == u)) for v1 in range(len(match)) for v2 in range(len(match)))"),
+    ("E6-visited-positions-unchanged", "all(implies(old_visit[v], match[v] == old_match[v]) for v in range(len(match)))"),
+    ("E7-new-values-come-from-unvisited-positions",
+     "all(implies(match[v] != old_match[v] and match[v] != u, "
+     "any(old_match[w] == match[v] and not old_visit[w] for w in range(len(match)))) for v in range(len(match)))"),
+    ("E9-matched-u-stay-matched", "all(implies(old_match[v] is not None, any(match[w] == old_match[v] for w in range(len(match)))) for v in range(len(match)))"),
+    ("E8-success-matches-u", "implies(result, any(match[v] == u and not old_visit[v] for v in range(len(match))))"),
+]
+AUG_LOOP = [
+    ("L0-lengths", "len(match) == len(old_match) and len(visit) == len(old_visit)"),
+    ("L1-match-unchanged-so-far", "all(match[v] == old_match[v] for v in range(len(match)))"),
+    ("L2-visit-monotone", "all(implies(old_visit[v], visit[v]) for v in range(len(match)))"),
+]
+augment_callee = Contract("augment", AUG_PARAMS, requires=AUG_REQUIRES, ensures=AUG_ENSURES, modifies=["visit", "match"], result="bool")
+augment = Contract("augment", AUG_PARAMS, requires=AUG_REQUIRES, ensures=AUG_ENSURES, modifies=["visit", "match"], result="bool",
+                   invariants={"for#0": AUG_LOOP},
+                   notes="recursive call by the function's own contract; partial correctness (termination: every call marks an unvisited v)")
+AUG_FINGERPRINT = {"for#0": "for v in bigraph[u]"}
+
+# max_bipartite_matching2(bigraph): the result is a matching of bigraph with len(result) = 1 + largest V index
+NV_STMT = "nV = max((max(adjlist, default=-1) for adjlist in bigraph)) + 1"
+MBM2_LOOP = [
+    ("M0-shape", "len(match) == nV and nU == len(bigraph)"),
+    ("M1-matched-pairs-are-edges", VALID),
+    ("M2-no-u-used-twice", INJ),
+    ("M3-only-processed-u-are-matched", "all(implies(match[v] is not None, match[v] < k_u) for v in range(len(match)))"),
+]
+mbm2 = Contract(
+    "max_bipartite_matching2", {"bigraph": "list[list[int]]"},
+    requires=["all(0 <= v for uu in range(len(bigraph)) for v in bigraph[uu])"],
+    ensures=[("result_pairs_are_edges", "all(implies(result[v] is not None, 0 <= result[v] and result[v] < len(bigraph) and v in bigraph[result[v]]) for v in range(len(result)))"),
+             ("result_no_u_used_twice", "all(implies(result[v1] is not None and result[v1] == result[v2], v1 == v2) for v1 in range(len(result)) for v2 in range(len(result)))"),
+             ("result_covers_every_v_index", "all(v < len(result) for uu in range(len(bigraph)) for v in bigraph[uu])")],
+    invariants={"for#0": MBM2_LOOP},
+    abstract={"Stmt@" + NV_STMT: {"havoc": {"nV": "int"},
+                                  "assume": ["nV >= 0", "all(v < nV for uu in range(len(bigraph)) for v in bigraph[uu])"]}},
+    result="list[opt[int]]",
+    notes="the statement computing nV (nested max over a generator) is summarised by its defining property, keyed by its exact text")
+MBM2_FINGERPRINT = {"for#0": "for u in range(nU)"}
+
+# bipartite_vertex_cover for algo == "Hungarian": nothing abstracted - max_bipartite_matching2 is called by its (proved) contract
+MBM2_CALLEE = Contract("max_bipartite_matching2", {"bigraph": "list[list[int]]"}, requires=mbm2.requires, ensures=mbm2.ensures,
+                       result="list[opt[int]]")
+hungarian = Contract(
+    "bipartite_vertex_cover", {"bigraph": "list[list[int]]", "algo": "str"},
+    requires=["algo == 'Hungarian'", "all(0 <= v for uu in range(len(bigraph)) for v in bigraph[uu])"], ensures=ENSURES,
+    invariants={"for#0": MU, "while#0": OUTER, "for#2": INNER}, asserts="assume",
+    notes="algo='Hungarian': the matching comes from max_bipartite_matching2 under its proved contract; no assumed MATCHING")
